@@ -16,32 +16,45 @@ EXT_IDS = [
 # what the application enables by default
 DEFAULT_EXT = ("linter-pragmas",)
 
-_TMS = {}
+_EMS = {}
 
 
-def tokenizer(enabled_ext=None):
-    """A configured TokenizedMarkdown for the given tuple of enabled extension ids
-    (None = the parser's own defaults: nothing mentioned in the configuration)."""
-    key = None if enabled_ext is None else tuple(sorted(enabled_ext))
-    tm = _TMS.get(key)
-    if tm is None:
+def _ext_manager(key):
+    if key not in _EMS:
         from application_properties import ApplicationProperties
         from pymarkdown.extension_manager.extension_manager import ExtensionManager
         from pymarkdown.general.main_presentation import MainPresentation
-        from pymarkdown.general.tokenized_markdown import TokenizedMarkdown
 
         props = ApplicationProperties()
         if key is not None:
-            props.load_from_dict(
-                {"extensions": {e: {"enabled": (e in key)} for e in EXT_IDS}}
-            )
+            props.load_from_dict({"extensions": {e: {"enabled": (e in key)} for e in EXT_IDS}})
         em = ExtensionManager(MainPresentation())
         em.initialize(None, props)
         em.apply_configuration()
-        tm = TokenizedMarkdown()
-        tm.apply_configuration(props, em)
-        _TMS[key] = tm
+        _EMS[key] = (props, em)
+    return _EMS[key]
+
+
+def tokenizer(enabled_ext=None):
+    """A FRESH, configured TokenizedMarkdown for the given tuple of enabled extension ids (None = the
+    parser's own defaults).  A new instance per document keeps every evaluation independent of the
+    documents parsed before it (history dependence is C13's subject, not a side effect of the harness);
+    the entity table is memoized (vf.app), so an instance costs ~30 microseconds."""
+    from pymarkdown.general.tokenized_markdown import TokenizedMarkdown
+
+    from . import app
+
+    if not _memo[0]:
+        app._memoize_entity_map()
+        _memo[0] = True
+    key = None if enabled_ext is None else tuple(sorted(enabled_ext))
+    props, em = _ext_manager(key)
+    tm = TokenizedMarkdown()
+    tm.apply_configuration(props, em)
     return tm
+
+
+_memo = [False]
 
 
 # ------------------------------------------------------------------ work budget
